@@ -128,7 +128,7 @@ make_tzob(size_t x)
 static inline size_t
 make_size(echs_tzob_t z)
 {
-	return ((z >> 8U) & 0b111100U) ^ ((z >> 6U) & 0b11U);
+	return ((z >> 10U) & 0b111100U) ^ ((z >> 6U) & 0b11U);
 }
 
 static echs_tzob_t
